@@ -15,9 +15,25 @@ moment at the origin"; the code forms R^T (I_c + m PA(t-c)) R): `transform` = [R
 of the frame in world coordinates; the result is the tensor about the point t expressed in the
 axes given by the columns of R.
 
-Centre-of-mass override: the statement says the override "is honoured".  Judged as: the override
-is reported as centre of mass and every tensor follows the parallel-axis law with the override
-*as* the centre of mass: I_c' = I_origin - m PA(c'), I_t = I_c' + m PA(t - c').
+Centre-of-mass override: the statement says the override "is honoured" and (first sentence, no
+exception) that the reported tensor equals the exact integrals of the second moments over the
+enclosed solid.  Judged as: the override c' is reported as centre of mass, `moment_inertia` is the
+exact second-moment integral of the solid ABOUT c' (= I_c + m PA(c' - c)), and other frames follow
+the parallel-axis / rotation law from those two reported values, I_t = I(c') + m PA(t - c').
+The value the library computes today, I_origin - m PA(c') (a parallel-axis shift that is valid only
+from the true centroid; it depends on where the world origin is and has negative diagonal entries
+for overrides outside the body), is recognised and reported under its own mechanism key
+(sym=origin_anchored_shift) so that any OTHER error under an override keeps the key wrong_value.
+
+Small solids: `triangles.mass_properties` zeroes the centre of mass when |volume| < tol.zero = 1e-12
+(absolute).  The statement quantifies over all real coordinates, so well-conditioned solids below
+that volume (x1e-6 placements) are judged like any other; what is NOT judged is the centre / tensor
+of a surface whose exact volume is 0 or lost in the rounding of the volume integral itself
+(|V| < 1e3 x the volume tolerance): there the centre of mass is 0/0.
+
+Histories: the same quantities after the library copied the mesh (with / without its cache) and one
+of the two objects was edited (density, override, transform, invert, vertices): every object of the
+family is judged after every step against the exact integrals of ITS OWN solid, density, override.
 """
 
 from __future__ import annotations
@@ -36,11 +52,13 @@ RULE = (
     "closed oriented integer-coordinate meshes (asymmetric tetrahedra under all 24 vertex relabelings x "
     "face-start rotations and all 48 signed axis permutations, lattice hulls, polycubes, genus-1 frame "
     "torus, disjoint / nested-cavity / overlapping multi-body shells, inverted copies, zero-volume "
-    "pillows) x placements (as is, +1e3, x1e3, x1e-3, (+1e3)x1e-3) x densities {default,0.5,1,7.25,1e3} x "
-    "centre-of-mass override {none, 2 points} x ~20 rational frames, mesh-level and free-function routes. "
+    "pillows) x placements (as is, +1e3, x1e3, x1e-3, (+1e3)x1e-3, x1e-6, (+1e3)x1e-6) x densities {default,0.5,1,7.25,1e3} x "
+    "centre-of-mass override {none, 2 points} x ~20 rational frames, mesh-level and free-function routes; "
+    "histories over a family of objects related by copy(include_cache in {True, False}): read / copy / set "
+    "density / set override / integer transform / invert / assign vertices, all objects judged after every step. "
     "A case is one (mesh, placement, route, density, override[, frame]) evaluation; distinct = distinct "
-    "(vertex bytes, face bytes, route, parameters); non-trivial = |volume| >= 1e-9 (below, only "
-    "volume / area are judged)."
+    "(vertex bytes, face bytes, route, parameters) resp. distinct (mesh, program prefix); non-trivial = exact "
+    "volume != 0 and above 1e3 x its own rounding tolerance (otherwise only volume / area are judged)."
 )
 ANCHORS = [
     "trimesh/triangles.py:mass_properties",
@@ -63,7 +81,8 @@ MIN_EVENTS = {"quick": 2000, "thorough": 20000}
 ASSUMPTIONS = [
     "Python integer / Fraction arithmetic and 50-digit Decimal square roots are exact enough to serve as truth",
     "a float64 evaluation of the surface integrals stays within 64 eps times the oracle's bound of sum|terms|",
-    "an overridden centre of mass means: reported as given and used as the centre in the parallel-axis law",
+    "an overridden centre of mass c' means: reported as given; moment_inertia = exact second moments of the solid about c'; "
+    "other frames by the parallel-axis law from (c', that tensor)",
     "moment_inertia_frame(T): tensor about the origin of T expressed in the axes of T (columns of T[:3,:3])",
 ]
 EXHAUSTIVE = {"quick": False, "thorough": False}
@@ -76,7 +95,13 @@ PLACEMENTS = (
     ("scaled_1e-3", 1e-3, 0.0),
     ("translated_scaled_1e-3", 1e-3, 1000.0),
 )
-VMIN = 1e-9
+# solids below the library's absolute cut-off tol.zero = 1e-12 on |volume| (well conditioned: the
+# integer mesh is only scaled), >= 1000x below the threshold for every generator (|V_int| <= ~2e3)
+TINY_PLACEMENTS = (
+    ("scaled_1e-6", 1e-6, 0.0),
+    ("translated_scaled_1e-6", 1e-6, 1000.0),
+)
+TOL_ZERO = 1e-12  # trimesh.constants.tol.zero, the documented constant (input class of a key only)
 
 
 # ------------------------------------------------------------------------------------------
@@ -111,20 +136,31 @@ class Ctx:
         self.Vf = place(V, scale, trans)
         self.ex = exact_mass(self.Vf, self.F)
         self.vol = float(self.ex.volume)
-        self.solid = abs(self.vol) >= VMIN
+        # a solid whose volume is exactly 0 or within the rounding of the volume integral has no
+        # centre of mass to speak of (0/0); everything else is judged, however small
+        self.solid = self.ex.volume != 0 and abs(self.vol) >= 1e3 * self.ex.tol_volume()
+        self.below_tol_zero = self.solid and abs(self.vol) < TOL_ZERO
         if self.solid:
             self.c = self.ex.f(self.ex.center_mass())
             self.tc = self.ex.tol_center_mass()
         self.worst = 0.0
+        self.named = set()
+        self.unnamed = 0
+        self.case_extra = {}
 
     def base_case(self, **extra):
         d = {"mesh": self.tag, "V": self.V0.tolist(), "F": self.F.tolist(), "placement": self.pname,
              "scale": self.scale, "trans": self.trans}
+        d.update(self.case_extra)
         d.update(extra)
         return d
 
-    def judge(self, route, qty, got, want, tol, density="default", override="no", **extra):
-        """Compare; split matrices into diag / offdiag so the key names the symptom."""
+    def judge(self, route, qty, got, want, tol, density="default", override="no", alts=(), **extra):
+        """
+        Compare; split matrices into diag / offdiag so the key names the symptom.
+        alts: ((key, value, tol), ...) - a wrong value that equals one of these known-mechanism
+        values is reported under `key` (route family only) instead of sym=wrong_value.
+        """
         self.run.count("comparisons")
         want = np.asarray(want, dtype=np.float64)
         try:
@@ -152,9 +188,27 @@ class Ctx:
         ok = True
         for name, mask in parts:
             r = _max_ratio(got_a[mask], want[mask], tol[mask])
-            self.worst = max(self.worst, r if np.isfinite(r) else 1e300)
+            if r <= 1.0:
+                self.worst = max(self.worst, r)
             if r > 1.0:
                 ok = False
+                named = None
+                for akey, aval, atol in alts:
+                    aval = np.asarray(aval, dtype=np.float64)
+                    atol = np.broadcast_to(np.asarray(atol, dtype=np.float64), want.shape)
+                    if aval.shape == want.shape and _max_ratio(got_a[mask], aval[mask], atol[mask]) <= 1.0:
+                        named = akey
+                        break
+                if named is not None:
+                    self.named.add(named)
+                    self.run.violation(
+                        "route=%s qty=%s %s" % (route.split(":")[0].split("_")[0], qty, named),
+                        "%s from %s differs from the exact integral by %.3g x the rounding tolerance (%s)" % (name, route, r, named),
+                        self.base_case(route=route, qty=name, got=got_a, expected=want, tol=tol,
+                                       ratio=r, **extra),
+                    )
+                    continue
+                self.unnamed += 1
                 self.run.violation(
                     "route=%s qty=%s density=%s override=%s sym=wrong_value" % (route, name, density, override),
                     "%s from %s differs from the exact integral by %.3g x the rounding tolerance" % (name, route, r),
@@ -164,35 +218,86 @@ class Ctx:
         return ok
 
 
-def _tensor_expect(ctx, center_override, rho):
-    """expected inertia about the (stated) centre of mass and its tolerance, density rho"""
+K_ANCHORED = "override=yes sym=origin_anchored_shift"
+K_ZEROED = "input=abs_volume_below_tol_zero sym=zeroed"
+K_ABOUT_ORIGIN = "input=abs_volume_below_tol_zero sym=about_origin"
+
+
+def _override_tol_extra(ctx, ov):
+    """rounding of the c_i F_j terms of second moments shifted to a point that is not F/V"""
     ex = ctx.ex
+    tf = np.asarray(ex.tol_first(), dtype=np.float64)
+    Fa = np.abs(ex.f(list(ex.first)))
+    c = np.abs(np.asarray(ov, dtype=np.float64))
+    E = np.outer(c, tf) + np.outer(tf, c) + 8 * EPS * (np.outer(c, Fa) + np.outer(Fa, c))
+    out = E.copy()
+    for i in range(3):
+        out[i, i] = sum(E[a, a] for a in range(3) if a != i)
+    return out
+
+
+def _center_alts(ctx, center_override):
+    if center_override is None and ctx.below_tol_zero:
+        return ((K_ZEROED, np.zeros(3), 0.0),)
+    return ()
+
+
+def _tensor_expect(ctx, center_override, rho):
+    """
+    expected inertia about the (stated) centre of mass, its tolerance, and the known-mechanism
+    alternatives (see module docstring), density rho
+    """
+    ex = ctx.ex
+    alts = ()
     if center_override is None:
         I = ex.f(ex.inertia_com())
         tol = ex.tol_inertia(ctx.c, ctx.tc)
+        if ctx.below_tol_zero:
+            Io = ex.f(ex.inertia_about([0, 0, 0]))
+            to = ex.tol_inertia(np.zeros(3), np.zeros(3))
+            alts = ((K_ABOUT_ORIGIN, Io * rho, to * abs(rho) * (1 + 4 * EPS) + 4 * EPS * np.abs(Io * rho)),)
     else:
-        I = ex.f(ex.inertia_com(center=center_override))
-        tol = ex.tol_inertia(center_override, np.zeros(3))
-    return I * rho, tol * abs(rho) * (1 + 4 * EPS) + 4 * EPS * np.abs(I * rho)
+        # exact second moments of the solid about the stated centre
+        I = ex.f(ex.inertia_about(center_override))
+        tol = ex.tol_inertia(center_override, np.zeros(3)) + _override_tol_extra(ctx, center_override)
+        Ia = ex.f(ex.inertia_com(center=center_override))
+        ta = ex.tol_inertia(center_override, np.zeros(3))
+        alts = ((K_ANCHORED, Ia * rho, ta * abs(rho) * (1 + 4 * EPS) + 4 * EPS * np.abs(Ia * rho)),)
+    return I * rho, tol * abs(rho) * (1 + 4 * EPS) + 4 * EPS * np.abs(I * rho), alts
+
+
+def _frame_override_exact(ex, Rf, t, ov):
+    """R^T (I(c') + V PA(t - c')) R, I(c') the exact tensor of the solid about c'; world tensor too"""
+    Iab = ex.inertia_about(ov)
+    d = [Fraction(float(t[i])) - Fraction(float(ov[i])) for i in range(3)]
+    pa = ex.parallel_axis(d)
+    It = [[Iab[i][j] + ex.volume * pa[i][j] for j in range(3)] for i in range(3)]
+    R = [[Fraction(float(x)) for x in row] for row in np.asarray(Rf).tolist()]
+    tmp = [[sum(It[i][k] * R[k][j] for k in range(3)) for j in range(3)] for i in range(3)]
+    return It, [[sum(R[k][i] * tmp[k][j] for k in range(3)) for j in range(3)] for i in range(3)]
 
 
 def _frame_expect(ctx, Rf, t, center_override, rho):
     ex = ctx.ex
+    Ra = np.abs(np.asarray(Rf, dtype=np.float64))
+    alts = ()
     if center_override is None:
         I = ex.f(ex.inertia_frame(Rf, t))
-        cen, tcen = ctx.c, ctx.tc
-    else:
-        I = ex.f(ex.inertia_frame(Rf, t, center=center_override))
-        cen, tcen = np.asarray(center_override, dtype=np.float64), np.zeros(3)
-    # tolerance of the aligned tensor (about t, world axes) pushed through |R|
-    tol_al = ex.tol_inertia(cen, tcen, about=t)
-    if center_override is None:
+        # tolerance of the aligned tensor (about t, world axes) pushed through |R|
+        tol_al = ex.tol_inertia(ctx.c, ctx.tc, about=t)
         I_al = np.abs(ex.f(ex.inertia_point(t)))
     else:
-        I_al = np.abs(ex.f(ex.inertia_point(t, center=center_override)))
-    Ra = np.abs(np.asarray(Rf, dtype=np.float64))
+        cen = np.asarray(center_override, dtype=np.float64)
+        It, Ir = _frame_override_exact(ex, Rf, t, center_override)
+        I = ex.f(Ir)
+        tol_al = ex.tol_inertia(cen, np.zeros(3), about=t) + _override_tol_extra(ctx, center_override)
+        I_al = np.abs(ex.f(It))
+        Ia = ex.f(ex.inertia_frame(Rf, t, center=center_override))
+        ta = Ra.T @ (ex.tol_inertia(cen, np.zeros(3), about=t)
+                     + 16 * EPS * np.abs(ex.f(ex.inertia_point(t, center=center_override)))) @ Ra
+        alts = ((K_ANCHORED, Ia * rho, ta * abs(rho) * (1 + 8 * EPS)),)
     tol = Ra.T @ (tol_al + 16 * EPS * I_al) @ Ra
-    return I * rho, tol * abs(rho) * (1 + 8 * EPS)
+    return I * rho, tol * abs(rho) * (1 + 8 * EPS), alts
 
 
 # ------------------------------------------------------------------------------------------
@@ -232,12 +337,19 @@ def check_mesh(run, tag, V, F, pname, scale, trans, *, densities, overrides, fra
             ctx.judge("mesh_dict", "density", mp["density"], 1.0, 0.0)
             ctx.judge("mesh", "density", m.density, 1.0, 0.0)
             if ctx.solid:
-                I, tI = _tensor_expect(ctx, None, 1.0)
-                ctx.judge("mesh", "center_mass", m.center_mass, ctx.c, ctx.tc)
-                ctx.judge("mesh", "inertia", m.moment_inertia, I, tI)
-                ctx.judge("mesh_dict", "center_mass", mp["center_mass"], ctx.c, ctx.tc)
-                ctx.judge("mesh_dict", "inertia", mp["inertia"], I, tI)
+                I, tI, aI = _tensor_expect(ctx, None, 1.0)
+                aC = _center_alts(ctx, None)
+                ctx.judge("mesh", "center_mass", m.center_mass, ctx.c, ctx.tc, alts=aC)
+                ctx.judge("mesh", "inertia", m.moment_inertia, I, tI, alts=aI)
+                ctx.judge("mesh_dict", "center_mass", mp["center_mass"], ctx.c, ctx.tc, alts=aC)
+                ctx.judge("mesh_dict", "inertia", mp["inertia"], I, tI, alts=aI)
                 ctx.judge("mesh_dict", "mass", mp["mass"], ctx.vol, tv)
+            # a centre of mass zeroed by the absolute cut-off (named finding) drags every derived
+            # value along: those are not judged again for this mesh
+            derived = ctx.solid and K_ZEROED not in ctx.named
+            if ctx.solid and not derived:
+                run.count("derived_checks_skipped_centre_zeroed")
+            if derived:
                 # principal inertia: rows of vectors orthonormal, V^T diag(c) V rebuilds the tensor
                 comp = np.asarray(m.principal_inertia_components, dtype=np.float64)
                 vec = np.asarray(m.principal_inertia_vectors, dtype=np.float64)
@@ -271,30 +383,33 @@ def check_mesh(run, tag, V, F, pname, scale, trans, *, densities, overrides, fra
                 if not ctx.solid:
                     continue
                 if ov is None:
-                    ctx.judge("mesh", "center_mass", mm.center_mass, ctx.c, ctx.tc, dk, ok_, density_value=rho)
+                    ctx.judge("mesh", "center_mass", mm.center_mass, ctx.c, ctx.tc, dk, ok_, alts=_center_alts(ctx, None),
+                              density_value=rho)
                 else:
                     ctx.judge("mesh", "center_mass", mm.center_mass, np.array(ov, dtype=np.float64), 0.0, dk, ok_,
                               density_value=rho, center=ov)
-                I, tI = _tensor_expect(ctx, ov, r)
-                ctx.judge("mesh", "inertia", mm.moment_inertia, I, tI, dk, ok_, density_value=rho, center=ov)
+                I, tI, aI = _tensor_expect(ctx, ov, r)
+                ctx.judge("mesh", "inertia", mm.moment_inertia, I, tI, dk, ok_, alts=aI, density_value=rho, center=ov)
+                if ov is None and not derived:
+                    continue
                 # a couple of frames under density / override as well
                 for (Rq, Rf, t) in frames[:3]:
                     T = np.eye(4)
                     T[:3, :3] = Rf
                     T[:3, 3] = t
-                    Ie, tIe = _frame_expect(ctx, Rf, t, ov, r)
+                    Ie, tIe, aIe = _frame_expect(ctx, Rf, t, ov, r)
                     ncase("frame", r, None if ov is None else tuple(ov), T)
-                    ctx.judge("frame", "inertia", mm.moment_inertia_frame(T), Ie, tIe, dk, ok_,
+                    ctx.judge("frame", "inertia", mm.moment_inertia_frame(T), Ie, tIe, dk, ok_, alts=aIe,
                               density_value=rho, center=ov, frame=T)
 
             # frames: tensor about t in the axes of R
-            if ctx.solid:
-                I1, _t = _tensor_expect(ctx, None, 1.0)
+            if derived:
+                I1, _t, _a = _tensor_expect(ctx, None, 1.0)
                 for (Rq, Rf, t) in frames:
                     T = np.eye(4)
                     T[:3, :3] = Rf
                     T[:3, 3] = t
-                    Ie, tIe = _frame_expect(ctx, Rf, t, None, 1.0)
+                    Ie, tIe, _a = _frame_expect(ctx, Rf, t, None, 1.0)
                     ncase("frame", T)
                     ctx.judge("frame", "inertia", m.moment_inertia_frame(T), Ie, tIe, frame=T)
                     # transform_inertia, rotation only: R I R^T (3x3 and 4x4 forms)
@@ -343,12 +458,12 @@ def check_mesh(run, tag, V, F, pname, scale, trans, *, densities, overrides, fra
                 if not ctx.solid:
                     continue
                 if ov is None:
-                    ctx.judge(route, "center_mass", res["center_mass"], ctx.c, ctx.tc, dk, ok_, **extra)
+                    ctx.judge(route, "center_mass", res["center_mass"], ctx.c, ctx.tc, dk, ok_, alts=_center_alts(ctx, None), **extra)
                 else:
                     ctx.judge(route, "center_mass", res["center_mass"], np.array(ov, dtype=np.float64), 0.0, dk, ok_, **extra)
                 if not skip:
-                    I, tI = _tensor_expect(ctx, ov, r)
-                    ctx.judge(route, "inertia", res["inertia"], I, tI, dk, ok_, **extra)
+                    I, tI, aI = _tensor_expect(ctx, ov, r)
+                    ctx.judge(route, "inertia", res["inertia"], I, tI, dk, ok_, alts=aI, **extra)
             ncase("free_area")
             ctx.judge("free", "area", float(np.sum(ttri.area(tri))), ex.area, ex.tol_area())
             ctx.judge("free_crosses", "area", float(np.sum(ttri.area(crosses=ttri.cross(tri)))), ex.area, ex.tol_area())
@@ -433,19 +548,23 @@ def workload(run):
             check_mesh(run, tag, V, F, pname, scale, trans, densities=dens, overrides=ovp, frames=fr, routes=routes)
 
     # (1) catalogue of closed meshes: every placement, all densities, both overrides, 20 frames
-    n_cat = 10 if quick else 40
+    n_cat = 8 if quick else 40
     for tag, V, F in gm.closed_meshes(rng, count=n_cat):
         idx += 1
         if not run.mine(idx):
             continue
+        run.count("catalogue_meshes")
         do(tag, V, F, PLACEMENTS, DENSITIES, 2, frames)
+        # solids below the absolute volume cut-off of the code, well conditioned
+        do(tag, V, F, TINY_PLACEMENTS, DENSITIES[2:3], 1, frames[:3])
         # inverted copy: negative volume, same centre of mass, negated tensor
         Vi, Fi = gm.invert(V, F)
         do(tag + "_inverted", Vi, Fi, PLACEMENTS[:2], DENSITIES[:1], 1, frames[:4])
-        if run.out_of_time(0.35):
+        if run.out_of_time(0.27):
             run.count("catalogue_cut_short")
             break
 
+    run.note("t_catalogue", round(run.elapsed(), 1))
     # (1b) the same integrals after the library itself moved the mesh (values warm or cold)
     k = 0
     for tag, V, F in gm.closed_meshes(rng, count=4 if quick else 20):
@@ -456,8 +575,27 @@ def workload(run):
                 if not run.mine(idx):
                     continue
                 check_after_transform(run, tag, V, F, cls, L, [3, -2, 5] if k % 2 else [0, 0, 0], warm)
-        if run.out_of_time(0.45):
+        if run.out_of_time(0.38):
             break
+
+    run.note("t_after_transform", round(run.elapsed(), 1))
+    # (1c) histories over objects related by copy(include_cache=...): read / copy / edit one / judge all
+    hist_meshes = [("tetra", gm.tetra(rng)), ("hull", gm.hull_int(rng, 7))]
+    more = [(t_, (V_, F_)) for t_, V_, F_ in gm.closed_meshes(rng, count=1 if quick else 8)]
+    hist_meshes += more[2:] if quick else more  # quick: genus-1 torus, L prism, one random class
+    n_hist = 0
+    for hi, (tag, (V, F)) in enumerate(hist_meshes):
+        if hi >= 2 and run.out_of_time(0.50):
+            run.count("systematic_histories_cut_short")
+            break
+        for prog in history_programs(rng, V):
+            idx += 1
+            if not run.mine(idx):
+                continue
+            check_history(run, tag, V, F, prog)
+            n_hist += 1
+    run.count("systematic_histories", n_hist)
+    run.note("t_histories", round(run.elapsed(), 1))
 
     # (2) zero-volume pillows: only volume / area are judged
     for k in range(3):
@@ -473,16 +611,23 @@ def workload(run):
         idx += 1
         if not run.mine(idx):
             continue
-        if run.out_of_time(0.7):
+        if run.out_of_time(0.80):
             run.count("tetra_family_cut_short")
             break
         do(tag, V, F, PLACEMENTS[:2] if quick else PLACEMENTS, DENSITIES[2:3], 1, frames[:3])
 
+    run.note("t_tetra_family", round(run.elapsed(), 1))
     # (4) random asymmetric solids until the budget is used
     cap = 400 if quick else 10**9
     n = 0
     while not run.out_of_time(0.92) and n < cap:
         n += 1
+        if n % 3 == 0:
+            # a random history on a random small solid
+            tag, (V, F) = ("tetra", gm.tetra(rng)) if rng.random() < 0.5 else ("hull", gm.hull_int(rng, int(rng.integers(5, 9))))
+            check_history(run, tag, V, F, random_history(rng, V, int(rng.integers(4, 10))))
+            run.count("random_histories")
+            continue
         r = int(rng.integers(4))
         if r == 0:
             tag, (V, F) = "tetra", gm.tetra(rng)
@@ -494,7 +639,8 @@ def workload(run):
             a = gm.hull_int(rng, 7)
             b = gm.tetra(rng)
             tag, (V, F) = "multibody_touching_or_overlapping", gm.concat([a, (gm.translate(b[0], rng.integers(-3, 4, size=3)), b[1])])
-        pl = [PLACEMENTS[0], PLACEMENTS[int(rng.integers(1, len(PLACEMENTS)))]]
+        allp = PLACEMENTS + TINY_PLACEMENTS
+        pl = [PLACEMENTS[0], allp[int(rng.integers(1, len(allp)))]]
         fr = [frames[0]] + make_frames(rng, 4)[2:]
         do(tag, V, F, pl, (DENSITIES[int(rng.integers(len(DENSITIES)))],), 1, fr)
     run.count("random_solids", n)
@@ -559,7 +705,228 @@ def check_after_transform(run, tag, V, F, cls, L, t, warm):
                           dict(case, got=np.asarray(g).tolist(), want=np.asarray(w).tolist()))
 
 
+# ------------------------------------------------------------------------------------------
+# histories over a family of objects related by copy()
+
+HIST_READS = ("volume", "mass", "center_mass", "moment_inertia", "mass_properties", "area",
+              "principal_inertia_components", "density", "moment_inertia_frame")
+HIST_OPS = ("density", "override", "transform", "translate", "invert", "vertices", "scale")
+
+
+def history_programs(rng, V):
+    """
+    Systematic part: (values read or not) x copy(include_cache) x which of the two objects is
+    edited x every editing operation; then random programs.  Steps are JSON-able lists.
+    """
+    lo, hi = np.min(V, axis=0), np.max(V, axis=0)
+
+    def arg(op):
+        if op == "density":
+            return float(DENSITIES[int(rng.integers(len(DENSITIES)))] * (1 + int(rng.integers(3))))
+        if op == "override":
+            return (rng.integers(lo - 3, hi + 4).astype(np.float64) + 0.25 * int(rng.integers(4))).tolist()
+        if op == "transform":
+            cls, L = INT_MATRICES[int(rng.integers(len(INT_MATRICES)))]
+            return [cls, L, rng.integers(-5, 6, size=3).tolist()]
+        if op in ("translate", "vertices"):
+            return rng.integers(-7, 8, size=3).tolist()
+        if op == "scale":
+            return int(rng.integers(2, 4))
+        return None
+
+    out = []
+    for warm in (True, False):
+        for cache in (True, False):
+            for target in (1, 0):
+                for op in HIST_OPS:
+                    prog = []
+                    if warm:
+                        prog.append(["read", 0, list(HIST_READS)])
+                    prog.append(["copy", 0, cache])
+                    prog.append([op, target, arg(op)])
+                    # and once more on the other object, so both have left the shared state
+                    op2 = HIST_OPS[int(rng.integers(len(HIST_OPS)))]
+                    prog.append([op2, 1 - target, arg(op2)])
+                    out.append(prog)
+    return out
+
+
+def random_history(rng, V, n_steps):
+    lo, hi = np.min(V, axis=0), np.max(V, axis=0)
+    prog, n = [], 1
+    for _ in range(n_steps):
+        r = rng.random()
+        k = int(rng.integers(n))
+        if r < 0.25:
+            names = [x for x in HIST_READS if rng.random() < 0.5] or ["mass"]
+            prog.append(["read", k, names])
+        elif r < 0.45 and n < 4:
+            prog.append(["copy", k, bool(rng.random() < 0.7)])
+            n += 1
+        else:
+            op = HIST_OPS[int(rng.integers(len(HIST_OPS)))]
+            if op == "density":
+                a = float(DENSITIES[int(rng.integers(len(DENSITIES)))] * (1 + int(rng.integers(3))))
+            elif op == "override":
+                a = (rng.integers(lo - 3, hi + 4).astype(np.float64) + 0.25 * int(rng.integers(4))).tolist()
+            elif op == "transform":
+                cls, L = INT_MATRICES[int(rng.integers(len(INT_MATRICES)))]
+                a = [cls, L, rng.integers(-5, 6, size=3).tolist()]
+            elif op in ("translate", "vertices"):
+                a = rng.integers(-7, 8, size=3).tolist()
+            elif op == "scale":
+                a = int(rng.integers(2, 4))
+            else:
+                a = None
+            prog.append([op, k, a])
+    return prog
+
+
+class _Obj:
+    """reference model of one mesh object: integer solid, density, override, cache lineage"""
+
+    def __init__(self, mesh, V, F, rho=None, ov=None, group=0):
+        self.mesh, self.V, self.F, self.rho, self.ov, self.group = mesh, V, F, rho, ov, group
+
+
+def check_history(run, tag, V, F, program):
+    """
+    Execute `program` on a family of meshes and, after every step, judge every object of the
+    family against the exact integrals of its own current solid / density / override.
+    Coordinates stay small integers or quarter-integers (exact in float64) up to the bounded
+    number of steps, so the oracle sees the very numbers the meshes hold.
+    """
+    import trimesh  # noqa
+
+    V = np.asarray(V, dtype=np.int64)
+    F = np.asarray(F, dtype=np.int64)
+    objs = [_Obj(gm.to_trimesh(V, F), V.astype(np.float64), F.copy())]
+    ctx_cache = {}
+    frame_R = np.array([[0.0, -1.0, 0.0], [1.0, 0.0, 0.0], [0.0, 0.0, 1.0]])
+    frame_t = np.array([3.0, -2.0, 5.0])
+    T = np.eye(4)
+    T[:3, :3] = frame_R
+    T[:3, 3] = frame_t
+    groups = 1
+
+    for si, step in enumerate(program):
+        op, k, a = step[0], int(step[1]), step[2] if len(step) > 2 else None
+        if k >= len(objs):
+            continue
+        o = objs[k]
+        m = o.mesh
+        prefix = program[: si + 1]
+        case = {"route": "history", "tag": tag, "V": V.tolist(), "F": F.tolist(), "program": prefix}
+        try:
+            if op == "read":
+                for name in a:
+                    if name == "moment_inertia_frame":
+                        m.moment_inertia_frame(T)
+                    else:
+                        getattr(m, name)
+            elif op == "copy":
+                c = m.copy(include_cache=bool(a))
+                if a:
+                    grp = o.group
+                else:
+                    grp = groups
+                    groups += 1
+                objs.append(_Obj(c, o.V.copy(), o.F.copy(), o.rho, None if o.ov is None else list(o.ov), grp))
+            elif op == "density":
+                m.density = a
+                o.rho = float(a)
+            elif op == "override":
+                m.center_mass = np.array(a, dtype=np.float64)
+                o.ov = [float(x) for x in a]
+            elif op in ("transform", "translate", "scale"):
+                if op == "transform":
+                    L, t = np.array(a[1], dtype=np.int64), np.array(a[2], dtype=np.int64)
+                elif op == "translate":
+                    L, t = np.eye(3, dtype=np.int64), np.array(a, dtype=np.int64)
+                else:
+                    L, t = np.eye(3, dtype=np.int64) * int(a), np.zeros(3, dtype=np.int64)
+                if float(np.abs(o.V).max()) * float(np.abs(L).sum(axis=1).max()) + 8 > 2.0 ** 20:
+                    continue  # keep the degree-5 integrals of the integer model far from 2^53 ulp trouble
+                M = np.eye(4)
+                M[:3, :3] = L
+                M[:3, 3] = t
+                if op == "transform":
+                    m.apply_transform(M)
+                elif op == "translate":
+                    m.apply_translation(t.astype(np.float64))
+                else:
+                    m.apply_scale(float(a))
+                o.V = o.V @ L.T.astype(np.float64) + t
+                if o.ov is not None:
+                    o.ov = (np.array(o.ov) @ L.T.astype(np.float64) + t).tolist()
+                if round(float(np.linalg.det(L.astype(np.float64)))) < 0:
+                    o.F = o.F[:, ::-1].copy()
+            elif op == "invert":
+                m.invert()
+                o.F = o.F[:, ::-1].copy()
+            elif op == "vertices":
+                o.V = o.V + np.array(a, dtype=np.float64)
+                m.vertices = o.V.copy()
+            else:
+                raise AssertionError(op)
+        except Exception as e:  # noqa
+            run.violation("route=history op=%s sym=exception:%s" % (op, type(e).__name__),
+                          "step %r of a copy / edit history raised %r" % (step, e), case)
+            return
+        run.case("history:%s" % op, V, F, repr(prefix), nontrivial=True)
+        run.state("history_step", (op, "shared_cache" if sum(1 for x in objs if x.group == o.group) > 1 else "alone"))
+
+        # judge every object of the family
+        broken = False
+        for j, x in enumerate(objs):
+            if op in ("read", "copy"):
+                rel = "self" if (j == k or (op == "copy" and j == len(objs) - 1)) else "other"
+            else:
+                rel = "self" if j == k else ("cache_sharing_copy" if x.group == o.group else "plain_copy")
+            route = "history:%s:%s" % (op, rel)
+            key = (x.V.tobytes(), x.F.tobytes())
+            ctx = ctx_cache.get(key)
+            if ctx is None:
+                ctx = ctx_cache[key] = Ctx(run, tag, x.V, x.F, "asis", 1.0, 0.0)
+            ctx.case_extra = dict(case, object=j)
+            if not ctx.solid:
+                continue
+            before = ctx.unnamed
+            r = 1.0 if x.rho is None else x.rho
+            dk = "default" if x.rho is None else "set"
+            ok_ = "no" if x.ov is None else "yes"
+            mm = x.mesh
+            tv = ctx.ex.tol_volume()
+            try:
+                ctx.judge(route, "volume", mm.volume, ctx.vol, tv, dk, ok_)
+                ctx.judge(route, "mass", mm.mass, ctx.vol * r, tv * r * (1 + 4 * EPS), dk, ok_)
+                ctx.judge(route, "density", mm.density, r, 0.0, dk, ok_)
+                ctx.judge(route, "area", mm.area, ctx.ex.area, ctx.ex.tol_area(), dk, ok_)
+                if x.ov is None:
+                    ctx.judge(route, "center_mass", mm.center_mass, ctx.c, ctx.tc, dk, ok_)
+                else:
+                    ctx.judge(route, "center_mass", mm.center_mass, np.array(x.ov, dtype=np.float64), 0.0, dk, ok_)
+                I, tI, aI = _tensor_expect(ctx, x.ov, r)
+                ctx.judge(route, "inertia", mm.moment_inertia, I, tI, dk, ok_, alts=aI)
+                mp = mm.mass_properties
+                ctx.judge(route + ":dict", "mass", mp["mass"], ctx.vol * r, tv * r * (1 + 4 * EPS), dk, ok_)
+                ctx.judge(route + ":dict", "inertia", mp["inertia"], I, tI, dk, ok_, alts=aI)
+                Ie, tIe, aIe = _frame_expect(ctx, frame_R, frame_t, x.ov, r)
+                ctx.judge(route + ":frame", "inertia", mm.moment_inertia_frame(T), Ie, tIe, dk, ok_, alts=aIe)
+            except Exception as e:  # noqa
+                run.violation("route=history op=%s on=%s sym=exception:%s" % (op, rel, type(e).__name__),
+                              "reading mass properties after step %r raised %r" % (step, e), dict(case, object=j))
+                return
+            run.note("worst_ratio_to_tolerance", max(run.notes.get("worst_ratio_to_tolerance", 0.0), ctx.worst))
+            broken = broken or ctx.unnamed > before
+        if broken:
+            return  # a wrong object stays wrong: later steps would only repeat it under other names
+
+
 def replay(run, case):
+    if isinstance(case, dict) and case.get("program") is not None:
+        check_history(run, case.get("tag", "replay"), np.array(case["V"]), np.array(case["F"]), case["program"])
+        return
     if isinstance(case, dict) and case.get("route") == "after_transform":
         check_after_transform(run, case["tag"], np.array(case["V"]), np.array(case["F"]), case["cls"], case["L"], case["t"], case["warm"])
         return
